@@ -3,7 +3,7 @@
 import ast
 import re
 
-from ..core.absint import Interp, alternatives, contains, is_top, pretty
+from ..core.absint import Interp, alternatives, result_alternatives, contains, is_top, pretty
 from ..core.analysis import Analysis
 from ..core.forms import (Poly, Rat, U, UnitError, canon, srcinfo, to_rat, unit_of,
                           ustr)
@@ -152,7 +152,7 @@ def run(ctx):
     # threads
     fi = repo.func(pm, "Process.threads")
     t = evaluate(I, fi)
-    elems = [e for a in alternatives(t) if a[0] == "listof" for e in alternatives(a[1])
+    elems = [e for a in result_alternatives(t) if a[0] == "listof" for e in alternatives(a[1])
              if e[0] == "nt"]
     ctx.require(elems, f"threads(): no pthread records in {pretty(t)[:120]}")
     nt = elems[0]
